@@ -1,7 +1,7 @@
 """Oracle of C06: run a generated program under a plain sys.settrace recorder
 (no profiler, line_profiler is not imported) and print the stream of
 call / line / return events of the functions defined in the program file, with the
-way the program ended.  usage: python -m harness.drivers.c06_oracle <script> <K> <KIND>"""
+way the program ended.  usage: python -m harness.drivers.c06_oracle <script> <K> <KIND> [<OUT>]"""
 import json
 import os
 import runpy
@@ -10,6 +10,7 @@ import sys
 
 def main():
     script, k, kind = sys.argv[1:4]
+    out_state = sys.argv[4] if len(sys.argv) > 4 else 'ok'
     target = os.path.abspath(script)
     events = []
 
@@ -25,9 +26,9 @@ def main():
             events.append(['r', co.co_name])
         return tracer
 
-    sys.argv = [script, k, kind, 'nodeco']
+    sys.argv = [script, k, kind, 'nodeco', out_state]
     ended = 'return'
-    out = sys.stdout
+    out, err = sys.stdout, sys.stderr
     sys.stdout = open(os.devnull, 'w')
     sys.settrace(tracer)
     try:
@@ -40,7 +41,7 @@ def main():
         ended = 'exc:' + type(e).__name__
     finally:
         sys.settrace(None)
-        sys.stdout = out
+        sys.stdout, sys.stderr = out, err     # the program may have replaced them
     print('EVENTS ' + json.dumps(dict(events=events, ended=ended, line_profiler_loaded='line_profiler' in sys.modules)))
 
 
